@@ -196,7 +196,7 @@ pub fn run(seed: u64, count: usize, max_n: usize, out: &mut impl Write) {
             let mut ab = vec![s("from"), s("arcs"), p(&baseb), s("--num-nodes"), n.to_string(), s("-t"), t.clone()];
             ab.extend(comp_args(&c0));
             let eb = exec(&ab, Some(&bad), 60);
-            cx.note("from_arcs_badinput", &format!("badexit={} kind={} files={}", eb.code, if kind == 0 { "utf8" } else { "nonnumeric" },
+            cx.note("from_arcs_badinput", &format!("badexit={} kind={} bfiles={}", eb.code, if kind == 0 { "utf8" } else { "nonnumeric" },
                 baseb.with_extension("properties").exists() as u8));
         }
         let e = exec(&a, Some(text.as_bytes()), 60);
